@@ -335,6 +335,7 @@ def coreStep (st : CoreSt) (j : Json) : Except String (CoreSt × String) := do
     tag "C02" (rootMaxOK post) ++
     tag "C11" (countersOK post) ++
     tag "C05" (usageOK post) ++
+    tag "C05" (limitPathOK post) ++
     (match st.prev with
      | some pre => (stepClauses op j pre post msgs)
      | none => []) ++
